@@ -136,7 +136,7 @@ pub fn scenario(idx: usize, seed: u64, reqs_per_task: usize) -> ScenarioResult {
     let logs = Arc::new(Logs::default());
     let use_allowlist = idx % 2 == 0;
     // allow-list and near misses
-    let list_len = *[0usize, 1, 3, 1_000].get((idx / 2) % 4).unwrap();
+    let list_len = *[0usize, 1, 3, if super::miri() { 20 } else { 1_000 }].get((idx / 2) % 4).unwrap();
     let allowed: Vec<PeerId> = (0..list_len).map(|_| gen_peer(&mut rng)).collect();
     let allowed_set: HashSet<PeerId> = allowed.iter().copied().collect();
     let mut senders: Vec<Option<PeerId>> = vec![None];
@@ -308,13 +308,13 @@ pub fn run(ctx: &Ctx) -> i32 {
         property: "C20",
         tier,
         seed: ctx.seed,
-        scenarios: tier.pick(256, 3_000),
+        scenarios: if super::miri() { 2 } else { tier.pick(256, 3_000) },
         threads: 4,
         watchdog: Duration::from_secs(300),
         budget: Duration::from_secs(tier.pick(90, 900)),
         only: ctx.only,
     };
-    let per_task = tier.pick(2_000, 15_000);
+    let per_task = if super::miri() { 10 } else { tier.pick(2_000, 15_000) };
     let summary = runner::run_scenarios(&cfg, move |i, s| scenario(i, s, per_task));
     runner::finish(Report {
         property: "C20",
